@@ -1316,6 +1316,11 @@ def run_corpus(ctx: C.Ctx) -> None:
 def replay(ctx: C.Ctx, doc, from_corpus: bool = False) -> None:
     warm_imports()
     inp = doc.get("input", {})
+    if "gpool" in inp:
+        from harness.props import c12_globals as G
+        ctx.branch("corpus" if from_corpus else "replay")
+        G.replay_globals(ctx, inp)
+        return
     seed, size, ops = inp["pool"], inp["size"], inp["ops"]
     docs = make_pool(seed, size)
     for k, hx in inp.get("docs_hex", {}).items():
@@ -1361,6 +1366,10 @@ def run(ctx: C.Ctx) -> None:
         # stays around 90 s on an idle machine
         ctx.deadline = min(ctx.deadline, time.time() + 45.0)
     run_corpus(ctx)
+    # explicit process-wide state + per-page interpreter state (Model/ProcGlobals.lean): once in a process that
+    # has seen nothing yet, once more after all the document histories below
+    from harness.props import c12_globals as G
+    G.run_globals(ctx, ctx.n(5, 40))
     npools = ctx.n(2, 12)
     for pno in range(npools):
         if not ctx.time_left():
@@ -1371,3 +1380,4 @@ def run(ctx: C.Ctx) -> None:
             run_pool(ctx, f"C12/bulk/{ctx.seed}/{ctx.boost}", 4, 0, 0)
         seed = f"C12/{ctx.seed}/{ctx.boost}/{pno}"
         run_pool(ctx, seed, ctx.rng.choice([6, 7, 8]), 10 if ctx.tier == "quick" else 40, ctx.rng.choice([14, 20, 26]))
+    G.run_globals(ctx, ctx.n(5, 40))
